@@ -369,4 +369,27 @@ theorem nonvacuous :
       rcases hi' with rfl | rfl <;> rcases hj' with rfl | rfl <;> decide
   · exact vial_trichotomy_admissible _ hV _ (by norm_num) (by norm_num)
 
+/-- **`run_trichotomy_partial` applied to a run with ice** (the concrete run of
+`Lemmas/FlakeExRun.lean`, hypotheses from `C06.nonvacuous_run`): the transition of the vial from
+column 1 (σ = 1/2) to column 2 is the equilibrium-solidification transition, and the transition
+from column 0 is the nucleation jump. -/
+theorem nonvacuous_run :
+    (∃ v', (step Snow.FlakeExRun.xParams 0 1 (-5) (Snow.FlakeExRun.xS Snow.FlakeExRun.xV1)).vials[0]? = some v' ∧
+      IsTransition Snow.FlakeExRun.xPhys Snow.FlakeExRun.xParams (1 == 0) 1 (-5)
+        (Snow.FlakeExRun.xS Snow.FlakeExRun.xV1) 0 Snow.FlakeExRun.xV1 v') ∧
+    (runWith Snow.FlakeExRun.xInp 0).traj[2]? =
+      some (step Snow.FlakeExRun.xParams 0 1 (-5) (Snow.FlakeExRun.xS Snow.FlakeExRun.xV1)) := by
+  open Snow.FlakeExRun in
+  have h := Snow.C06.nonvacuous_run
+  have h0 : xInp.oc.start ≤ xInp.T0 := by simp only [xInp]; norm_num
+  have h1 : xInp.T0 ≤ -1 := by simp only [xInp]; norm_num
+  have h2 : xInp.oc.start ≤ -1 := by simp [xInp]
+  have hc1 : (runWith xInp 0).traj[1]? = some (xS xV1) := by
+    rw [← Array.getElem?_toList, x_traj]; rfl
+  have hT1 : (runWith xInp 0).Tshelf[1]? = some (-5 : ℝ) := by rw [x_Tshelf]; rfl
+  have hr := run_trichotomy_partial xInp 0 (-1) h.1 h.2.1 h0 h1 h2 h.2.2.1 1 (xS xV1) (-5) hc1 hT1
+  have hsz : 1 + 1 < (runWith xInp 0).traj.size := by
+    rw [← Array.length_toList, x_traj]; simp
+  exact ⟨hr.2.2 0 xV1 (by simp [xS]), hr.1 hsz⟩
+
 end Snow.C01
